@@ -120,6 +120,7 @@ Theorem C11_download_over_tls : forall w path r1 r2 rest x1 x2 x3 ip port,
   dp_tls_ok (r_data r2) = true -> dp_shutdown_ok (r_data r2) = true ->
   exists w', step w (ADownload path None None) = (OReturn (RvReplies [x1; x2; x3]), w') /\
     insync w' rest /\ w_data w' = None /\ w_cfg w' = w_cfg w /\
+    w_sess_id w' = w_sess_id w /\ w_ssl w' = w_ssl w /\ w_tls_up w' = w_tls_up w /\
     sink_bytes (io_events (skipn (length (w_trace w)) (w_trace w'))) = delivered (c_type (w_cfg w)) (concat (dp_segs (r_data r2))) /\
     wire_events (skipn (length (w_trace w)) (w_trace w')) =
       [WLine (setup_line (w_cfg w)); WReply x1; WLine (RETR_ ++ SP :: path); WReply x2; WReply x3] /\
